@@ -971,4 +971,48 @@ theorem get_definition_total (t : SymbolVersionTable) (hw : VersionTableWF t) (i
 example : uadd (USZ - 1) 1 = .panic := by decide
 example : usub 0 1 = .panic := by decide
 
+/-! ## `SymbolNamesIterator` (the `names` of a `SymbolDefinition`) -/
+
+theorem drainFuel_total {σ β} (next : σ → Out (Option β) × σ) (P : σ → Prop)
+    (hp : ∀ s, P s → (next s).1 ≠ .panic ∧ P (next s).2) (n : Nat) (s : σ) (acc : List β) (h : P s) :
+    (drainFuel next n s acc).1 ≠ .panic := by
+  induction n generalizing s acc with
+  | zero => simp [drainFuel]
+  | succ n ih =>
+    unfold drainFuel
+    obtain ⟨h1, h2⟩ := hp s h
+    generalize hq : next s = q at h1 h2
+    obtain ⟨q1, q2⟩ := q
+    cases q1 with
+    | panic => exact absurd rfl h1
+    | err e => simp
+    | ok o =>
+      cases o with
+      | none => simp
+      | some b => exact ih q2 _ h2
+
+/-- **Draining the names of a definition never panics, and no yielded item is a panic**: the aux
+    walk is total in every iterator state and each name lookup is a total string-table read. -/
+theorem symbol_names_total (d : SymbolDefinition) (hwf : d.names.data.len < 2 ^ 63) :
+    d.collectNames ≠ .panic ∧ ∀ l, d.collectNames = .ok l → ∀ x, x ∈ l → x ≠ .panic := by
+  have hdrain : (VerIter.collectAux VerDefAux.ep VerDefAux.vda_next d.names).1 ≠ .panic := by
+    unfold VerIter.collectAux
+    apply drainFuel_total _ (fun it => it.data.len < 2 ^ 63) _ _ _ _ hwf
+    intro it hit
+    refine ⟨verdefaux_next_total it hit, ?_⟩
+    rw [(next_aux_data VerDefAux.ep VerDefAux.vda_next it).1]; exact hit
+  unfold SymbolDefinition.collectNames
+  generalize hq : VerIter.collectAux VerDefAux.ep VerDefAux.vda_next d.names = q at hdrain
+  obtain ⟨q1, q2⟩ := q
+  cases q1 with
+  | panic => exact absurd rfl hdrain
+  | err e => exact ⟨by simp, fun l h => by simp at h⟩
+  | ok auxs =>
+    refine ⟨by simp, fun l h x hx => ?_⟩
+    simp only [Out.ok.injEq] at h
+    subst h
+    obtain ⟨a, _, ha⟩ := List.mem_map.mp hx
+    subst ha
+    exact strGet_ne_panic _ _
+
 end Elf.C01
